@@ -97,7 +97,21 @@ fn no_filter(_: &Deco) -> bool {
 }
 
 fn f3(k: usize, rich: bool) -> Box<dyn Family> {
+    if k >= 3 {
+        // three simultaneous decorations only on the skeletons with at most 7 solvables (the menus of
+        // the larger ones have ~1000 items: 10^8 triples each)
+        let small: Vec<Case> = skeletons().into_iter().filter(|c| c.u.solvs.len() <= 7).collect();
+        return Box::new(Decorated::new("F3 skeletons with <= 7 solvables", small, k, false, &no_filter));
+    }
     Box::new(Decorated::new("F3 skeletons", skeletons(), k, rich, &no_filter))
+}
+
+fn f3_filtered(k: usize, filter: &dyn Fn(&Deco) -> bool) -> Box<dyn Family> {
+    if k >= 3 {
+        let small: Vec<Case> = skeletons().into_iter().filter(|c| c.u.solvs.len() <= 7).collect();
+        return Box::new(Decorated::new("F3 skeletons with <= 7 solvables", small, k, false, filter));
+    }
+    Box::new(Decorated::new("F3 skeletons", skeletons(), k, false, filter))
 }
 
 fn f2(root: RootMenu, filter: &dyn Fn(&Deco) -> bool) -> Box<dyn Family> {
@@ -202,9 +216,12 @@ fn e1_plan(prop: P, tier: &Tier) -> Vec<PlanItem> {
                     full_axes(tier),
                     1,
                 ),
-                item(f3(if q { 2 } else { 3 }, !q), if q { two_axes() } else { full_axes(tier) }, 1),
+                item(f3(2, !q), if q { two_axes() } else { full_axes(tier) }, 1),
                 item(f4(tier), two_axes(), 1),
             ];
+            if !q {
+                v.push(item(f3(3, false), two_axes(), 1));
+            }
             v.push(item(Box::new(F9 { wide: !q }), hint_mask_axes(), if q { 1 } else { 4 }));
             if q {
                 v.push(item(
@@ -234,7 +251,7 @@ fn e1_plan(prop: P, tier: &Tier) -> Vec<PlanItem> {
                     two_axes(),
                     1,
                 ),
-                item(f3(if q { 2 } else { 3 }, !q), two_axes(), 1),
+                item(f3(2, !q), two_axes(), 1),
                 item(
                     f2(if q { RootMenu::List(vec![vec![3, 0, 0], vec![3, 3, 3]]) } else { RootMenu::AnyVersion }, &no_filter),
                     named(vec![("sync", sync_cfg())]),
@@ -257,6 +274,7 @@ fn e1_plan(prop: P, tier: &Tier) -> Vec<PlanItem> {
             }
             if !q {
                 v.push(item(Box::new(Grid::f1_prime()), named(vec![("sync", sync_cfg())]), 1));
+                v.push(item(f3(3, false), named(vec![("sync", sync_cfg())]), 1));
             }
             v
         }
@@ -277,14 +295,11 @@ fn e1_plan(prop: P, tier: &Tier) -> Vec<PlanItem> {
                 item(Box::new(F8), two_axes(), 1),
                 item(Box::new(Grid::f1()), two_axes(), 1),
                 item(f4(tier), named(vec![("sync", sync_cfg())]), 1),
-                item(
-                    Box::new(Decorated::new("F3 skeletons", skeletons(), if q { 2 } else { 3 }, false, &|d| {
-                        !matches!(d, Deco::AddUnion(Src::Root, _) | Deco::Soft(_))
-                    })),
-                    two_axes(),
-                    1,
-                ),
+                item(f3_filtered(2, &|d| !matches!(d, Deco::AddUnion(Src::Root, _) | Deco::Soft(_))), two_axes(), 1),
             ];
+            if !q {
+                v.push(item(f3_filtered(3, &|d| !matches!(d, Deco::AddUnion(Src::Root, _) | Deco::Soft(_))), named(vec![("sync", sync_cfg())]), 1));
+            }
             if q {
                 v.push(item(
                     Box::new(Grid::f1_prime().with_fixed(vec![(1, 2, 3), (2, 3, 3)])),
@@ -298,13 +313,8 @@ fn e1_plan(prop: P, tier: &Tier) -> Vec<PlanItem> {
         }
         P::C09 => vec![
             item(Box::new(Grid::f1()), named(vec![("sync", sync_cfg())]), 1),
-            item(
-                Box::new(Decorated::new("F3 skeletons", skeletons(), if q { 2 } else { 3 }, false, &|d| {
-                    !matches!(d, Deco::Hint(..))
-                })),
-                named(vec![("sync", sync_cfg())]),
-                1,
-            ),
+            item(f3_filtered(2, &|d| !matches!(d, Deco::Hint(..))), named(vec![("sync", sync_cfg())]), 1),
+            item(f3_filtered(if q { 1 } else { 3 }, &|d| !matches!(d, Deco::Hint(..))), named(vec![("sync", sync_cfg())]), 1),
             item(f4(tier), named(vec![("sync", sync_cfg())]), if q { 4 } else { 1 }),
         ],
         P::C14 => vec![
@@ -794,4 +804,20 @@ pub fn run_e2(ctx: &Ctx) -> i32 {
 
 fn f5k(q: bool) -> usize {
     std::env::var("VERIF_F5K").ok().and_then(|s| s.parse().ok()).unwrap_or(if q { 2 } else { 3 })
+}
+
+/// Prints the size of every E1 plan (cases x configurations) without running anything.
+pub fn sizes() {
+    for tier in [Tier::Quick, Tier::Thorough] {
+        for prop in [P::C01, P::C02, P::C03, P::C04, P::C05, P::C07, P::C08, P::C09, P::C14] {
+            let plan = e1_plan(prop, &tier);
+            let mut total = 0u64;
+            for it in &plan {
+                let n = it.fam.len() / it.stride.max(1) * it.cfgs.len() as u64;
+                total += n;
+                println!("  {} {} {:>14} runs  {} x{} /{}", prop.id(), tier.as_str(), n, it.fam.name(), it.cfgs.len(), it.stride);
+            }
+            println!("{} {} total {} runs", prop.id(), tier.as_str(), total);
+        }
+    }
 }
